@@ -478,7 +478,7 @@ DEF_NCODES = "number_codes-prints-float-in-unreadable-exponent-form"
 
 
 def mini_case(it):
-    keep = {k: it[k] for k in it if k not in ("id",)}
+    keep = {k: it[k] for k in it if k != "id" and not k.startswith("_")}
     return {"items": [keep]}
 
 
@@ -497,6 +497,11 @@ def classify_num(it, via, iv, m, mp, stats):
         return "known-shape", core.Finding("violation", sig,
                                            "%s accepts %r as %s although the reader rejects a digit group separator that is not followed by a digit"
                                            % (via, text, canon_num(iv)), mini_case(it))
+    INF = 0x7ff0000000000000
+    if (iv[0], m) == ("flt", ("err", "infinite_float")):      # overflow threshold: infinity is one step above the largest double
+        m = ("flt", INF | (iv[1] & (1 << 63)))
+    elif (m[0], iv) == ("flt", ("err", "infinite_float")):
+        iv = ("flt", INF | (m[1] & (1 << 63)))
     if iv[0] == "flt" and m[0] == "flt":
         d = ulp_diff(iv[1], m[1])
         sd = sig_digits(text)
@@ -607,6 +612,8 @@ def run(ctx):
                 r = "1.0"
                 it["bits"] = bits_of(1.0)
             it["src"] = r.replace("e+", "e")
+            if it["bits"] == 1 << 63:       # -0.0 is the number 0.0 (see ASSUMPTIONS)
+                it["bits"] = 0
 
     t0 = time.time()
     # phase 1: the model
